@@ -7,5 +7,8 @@ WK_two == (11 :> "set") @@ (12 :> "invalidate")
 WK_three == (11 :> "set") @@ (12 :> "evict") @@ (13 :> "invalidate")
 WK_stale == (11 :> "stale")
 WK_set_stale == (11 :> "set") @@ (12 :> "stale")
+WK_sweep == (11 :> "sweep")
+WK_sweep_set == (11 :> "sweep") @@ (12 :> "set")
+WK_sweep_inv == (11 :> "sweep") @@ (12 :> "invalidate")
 WK_none == [w \in {} |-> "set"]
 =============================================================================
